@@ -4,6 +4,7 @@ package main
 // and is listed in the evidence under trusted_base when used.
 
 import (
+	"sort"
 	"fmt"
 	"go/types"
 	"strings"
@@ -377,6 +378,29 @@ func init() {
 			return UF("reflect.kind", SInt, st.eng.tidOf(iv.Dyn))
 		}
 		r := UF("reflect.kind", SInt, iv.Tid)
+		// the composite types the run has met so far (named in a contract or in the code under
+		// verification): their kind is that of their underlying type
+		ids := make([]int64, 0, len(st.eng.tidTypes))
+		for id := range st.eng.tidTypes {
+			ids = append(ids, id)
+		}
+		sort.Slice(ids, func(a, b int) bool { return ids[a] > ids[b] })
+		for _, id := range ids {
+			k := int64(-1)
+			switch under(st.eng.tidTypes[id]).(type) {
+			case *types.Pointer:
+				k = 22
+			case *types.Slice:
+				k = 23
+			case *types.Struct:
+				k = 25
+			case *types.Map:
+				k = 21
+			}
+			if k >= 0 {
+				r = Ite(Eq(iv.Tid, Int(id)), Int(k), r)
+			}
+		}
 		for i := len(basicKinds) - 1; i >= 0; i-- {
 			r = Ite(Eq(iv.Tid, st.eng.tidOf(basicKinds[i].t)), Int(basicKinds[i].k), r)
 		}
